@@ -1,12 +1,30 @@
 package scram
 
-import "context"
+import (
+	"context"
+
+	"github.com/xdg-go/stringprep"
+)
 
 // C18, SCRAM: the kafka-go session wrapper around the SCRAM conversation reports success only after the server's
 // final message was validated (mutual authentication). The exchange is the RFC 7677 test vector (SCRAM-SHA-256,
 // user "user", password "pencil", 4096 iterations) with the client nonce fixed through the library's nonce hook; the
 // hash functions run concretely in the interpreter (pure-Go implementations).
 func VH_C18_ScramSession(variant int) {
+	if variant == 3 {
+		// credentials are SASLprep'ed (RFC 5802 5.1): U+2168 ROMAN NUMERAL NINE is mapped to "IX" by NFKC
+		m, err := Mechanism(SHA256, "admin\u2168", "pencil")
+		vhAssert(err == nil, "scram-mechanism-created")
+		mm := m.(*mechanism)
+		mm.client = mm.client.WithNonceGenerator(func() string { return "rOprNGfwEbeRWgbNEkqO" })
+		_, first, err := mm.Start(context.Background())
+		// natively the prepared form is "adminIX"; in the engine SASLprep is an injective marker function (stub)
+		prepared, perr := stringprep.SASLprep.Prepare("admin\u2168")
+		vhAssert(perr == nil, "saslprep-ok")
+		vhAssert(err == nil && string(first) == "n,,n="+prepared+",r=rOprNGfwEbeRWgbNEkqO", "client-first-carries-the-saslprepped-user-name")
+		vhReach("c18-scram-session")
+		return
+	}
 	m, err := Mechanism(SHA256, "user", "pencil")
 	vhAssert(err == nil, "scram-mechanism-created")
 	mm := m.(*mechanism)
